@@ -1,6 +1,8 @@
 import UberjobModel.Lemmas.EngineInv2
 import UberjobModel.Lemmas.EngineExamples
 import UberjobModel.Lemmas.Retry
+import UberjobModel.Lemmas.EngineComplete
+import UberjobModel.Lemmas.EnginePath
 /-!
 # C10 — run limits: max_workers and max_errors (engine part)
 
@@ -62,6 +64,76 @@ theorem C10_parallel_begin {g : Graph} {cfg : Cfg} {s : St} {w x : Nat}
   simp [setW, hlt]
 
 example : (run? diamond ⟨2, some 0⟩ (init diamond) (diamondRun.take 12)).map runningCount = some 2 := by decide
+
+/-- **Everything that is allowed to run does run.**  If the run returned without interrupt and the error limit was
+    not exceeded (`max_errors = None`, or at most `k` calls failed), then every node none of whose dependencies
+    failed was executed — for every worker count and schedule.  Together with `C10_errors_bound` for one worker
+    (`≤ k + 1` failures): a single-worker run fails `k + 1` calls, or else all failing calls none of whose
+    dependencies failed. -/
+theorem C10_runs_all_unblocked {g : Graph} (hg : g.WF) {cfg : Cfg} (hw : 1 ≤ cfg.workers) {s : St}
+    (hr : Reach g cfg s) {rank : Nat → Nat} (hrank : ∀ x y, y ∈ g.succs x → rank x < rank y)
+    (hc : s.coord = .returned false) (hfew : ∀ k, cfg.maxErr = some k → s.failed.length ≤ k) :
+    ∀ y, y ∈ g.nodes → (∀ a, Path g a y → a ∉ s.failed) → y ∈ s.begun := by
+  have hi := inv_reach hg hr
+  have h4 := inv4_reach hg hw hr
+  have h2 := inv2_reach hw hr
+  have hskip : s.skipped = [] := by
+    cases hs : s.skipped with
+    | nil => rfl
+    | cons a t =>
+      rcases h4.skipWhy (by rw [hs]; simp) with ⟨k, hk, hlt⟩ | h1
+      · have := hfew k hk; rw [← h2.errsLen] at this; omega
+      · rw [hc] at h1; cases h1
+  obtain ⟨q1, q2, _⟩ := h4.quiet (by rw [hc]; rfl)
+  have enq_done : ∀ y, y ∈ s.enq → (y ∈ s.okd ∨ y ∈ s.failed) ∧ y ∈ s.retired := by
+    intro y hy
+    have hpl := hi.place y
+    have hone := hi.once y
+    have hpos := List.count_pos_iff.mpr hy
+    have hq0 : s.queue.count (Item.node y) = 0 := List.count_eq_zero.mpr (q1 y)
+    have hw0 : s.ws.countP (holds y) = 0 := by
+      apply List.countP_eq_zero.mpr
+      intro v hv; simp [holds, q2 v hv]
+    simp only [cnt, qCount, wCount, rCount] at hpl
+    have hret : y ∈ s.retired := List.count_pos_iff.mp (by omega)
+    rcases h4.retWhy y hret with h1 | h1 | h1
+    · exact ⟨Or.inl h1, hret⟩
+    · exact ⟨Or.inr h1, hret⟩
+    · rw [hskip] at h1; cases h1
+  have key : ∀ n y, rank y ≤ n → y ∈ g.nodes → (∀ a, Path g a y → a ∉ s.failed) → y ∈ s.enq := by
+    intro n
+    induction n with
+    | zero =>
+      intro y hy hyn _
+      have hp : g.preds y = [] := by
+        cases hpy : g.preds y with
+        | nil => rfl
+        | cons p t => have := hrank p y ((hg.adj p y).mpr (by rw [hpy]; simp)); omega
+      apply h4.srcEnq
+      simp [sources, hyn, Graph.predCount, hp, classify_source_iff]
+    | succ n ih =>
+      intro y hy hyn hanc
+      cases hpy : g.preds y with
+      | nil =>
+        apply h4.srcEnq
+        simp [sources, hyn, Graph.predCount, hpy, classify_source_iff]
+      | cons p0 t =>
+        apply h4.relEnq y (by rw [hpy]; simp)
+        intro p hp
+        have hsp : y ∈ g.succs p := (hg.adj p y).mpr hp
+        have hlt := hrank p y hsp
+        have hpn : p ∈ g.nodes := (hg.succsNodes p y hsp).1
+        have hpe := ih p (by omega) hpn (fun a ha => hanc a (Path.cons ha hp))
+        obtain ⟨hpd, hpr⟩ := enq_done p hpe
+        have hpo : p ∈ s.okd := by
+          rcases hpd with h1 | h1
+          · exact h1
+          · exact absurd h1 (hanc p (Path.single hp))
+        exact h4.okdRel p hpr hpo y hsp
+  intro y hy hanc
+  rcases (enq_done y (key (rank y) y (Nat.le_refl _) hy hanc)).1 with h1 | h1
+  · exact hi.okBegun y h1
+  · exact (hi.failBegun y h1).1
 
 /-! ## retry = n  (`create_retry`, with loop bound, last-attempt test and exception class regenerated from retry.py)
 
